@@ -501,6 +501,32 @@ theorem measure_bcout (cfg : Cfg) (s s' : State) (c u r : Nat) (tokens : List (N
           simp only [chainInFlight, tokensValue, List.map_cons, List.map_nil, List.sum_cons, List.sum_nil]
           omega
 
+theorem measure_vbcout (cfg : Cfg) (s s' : State) (c gfx u r v : Nat) (tokens : List (Nat × Nat)) (g' : Nat)
+    (hc : c < 3) (h : stepCore cfg s (.vbcout c gfx u r v tokens) = .ok s') : measure s' g' = measure s g' := by
+  simp only [stepCore] at h; exc
+  split at h
+  · cases h
+  · split at h
+    · cases h
+    · cases hi : pairsFlow cfg tokens (fun k g n => convertERC20 k g (U u) (U u) n) with
+      | error e => simp [hi] at h
+      | ok flIn =>
+        simp only [hi] at h
+        cases ho : tokensFlow cfg c ((gfx, v) :: tokens) (fun k g n => baseCoinToBridgeToken k g c (U u) n) with
+        | error e => simp [ho] at h
+        | ok flOut =>
+          simp only [ho] at h
+          cases hr : run s (valueIn gfx (U u) v ++ (flIn ++ flOut)) with
+          | error e => simp [hr] at h
+          | ok s1 =>
+            simp only [hr, Except.ok.injEq] at h; subst h
+            have hout := tokensFlow_delta cfg c g' _ (-1)
+              (by intro k g n; rw [held_withdraw g' k g c u n hc]; split <;> simp) ((gfx, v) :: tokens) flOut ho
+            rw [measure_run_finish s s1 _ c _ _ _ g' hc hr, flowDelta_append, flowDelta_append, held_valueIn, hout,
+              pairsFlow_delta cfg g' _ (fun k g n => held_convertERC20 g' k g u u n) tokens flIn hi]
+            simp only [chainInFlight, tokensValue, List.map_cons, List.map_nil, List.sum_cons, List.sum_nil]
+            omega
+
 theorem measure_refundCall (cfg : Cfg) (s s' : State) (c : Nat) (call : OutCall) (rest : List OutCall) (g' : Nat)
     (hc : c < 3) (p : OutCall → Bool) (he : extract p (s.chains c).calls = some (call, rest))
     (h : refundCall cfg s c call { (s.chains c) with calls := rest } = .ok s') : measure s' g' = measure s g' := by
@@ -678,6 +704,7 @@ theorem step_measure (cfg : Cfg) (s s' : State) (op : Op) (g' : Nat) (h : step c
       · exact measure_executed cfg s s' _ _ _ g' hc h
       · exact measure_btimeout cfg s s' _ _ _ g' hc h
       · exact measure_bcout cfg s s' _ _ _ _ _ g' hc h
+      · exact measure_vbcout cfg s s' _ _ _ _ _ _ g' hc h
       · exact measure_bcresult cfg s s' _ _ _ g' hc h
       · exact measure_bctimeout cfg s s' _ _ g' hc h
       · exact measure_bcin cfg s s' _ _ _ g' hc h
